@@ -345,11 +345,18 @@ theorem speed_shared (sqrt : α → α) (ofNat : Nat → α) (isNaN : α → Boo
 tracks share — and also when the operation ends in an exception: after computing, reading, removing or writing
 features through any entry point (`computeAbsCurv`, `estimate_speed`, `addAnalyticalFeature(speed | ds)`,
 `operate(INTEGRATOR | DIFFERENTIATOR)`, `length`, `computeCurvAbsBetweenTwoPoints`, reads, `removeAnalyticalFeature`,
-`track[name] = list`, `isSorted`, `duration`, `getT`) the position and the calendar stamp of EVERY observation object
-and the reference list of EVERY track are what they were. -/
+`track[name] = list`, `isSorted`, `duration`, `getT`, and the METHOD `track.estimate_speed()`) the position and the stamp
+— the seven calendar fields and the `zone` field (`geom` lists `(x, y, z, t, zone)` per object) — of EVERY observation
+object and the reference list of EVERY track are what they were. -/
 theorem positions_and_stamps_unchanged {V : Type} [AbsTime V] (g : GOps V) (op : WOp V) (hop : op.onFeatures = true) (w : World V) :
     geom (stepW g op w).2 = geom w ∧ (stepW g op w).2.trks.map (·.ids) = w.trks.map (·.ids) :=
   stepW_frame g op hop w
+
+/-- `Track.estimate_speed()` — the method of core/track.py, called without a kernel — is `estimate_speed(track)` of
+algo/cinematics.py: same result, same final world, on every world. With `positions_and_stamps_unchanged` (the method is an
+operation on features): it rewrites no stamp, whatever zones the stamps of the track carry. -/
+theorem speed_method_is_function {V : Type} [AbsTime V] (g : GOps V) (k : Nat) (w : World V) :
+    stepW g (.speedMethod k) w = stepW g (.speed k) w := rfl
 
 end representations
 
@@ -618,10 +625,11 @@ section demoWorld
 open TV.Features TV.CinTab TV.ObsTime
 
 /-- four observation objects; the two middle ones already carry a slot (value 7) because they also belong to track 1,
-on which `speed` was computed; track 0 references all four and lists no feature -/
+on which `speed` was computed; track 0 references all four and lists no feature. The stamps of the first two were written by
+a logger set to zone 0, those of the last two by a logger set to zone +2 (the sixth component) -/
 def demoW : World (Option Rat) :=
-  { heap := [⟨some 0, some 0, some 0, ⟨1970, 1, 1, 0, 0, 0, 0⟩, []⟩, ⟨some 3, some 4, some 0, ⟨1970, 1, 1, 0, 0, 2, 0⟩, [some 7]⟩,
-             ⟨some 3, some 4, some 1, ⟨1970, 1, 1, 0, 0, 2, 0⟩, [some 7]⟩, ⟨some 6, some 8, some 0, ⟨1970, 1, 1, 0, 0, 5, 0⟩, []⟩],
+  { heap := [⟨some 0, some 0, some 0, ⟨1970, 1, 1, 0, 0, 0, 0⟩, [], 0⟩, ⟨some 3, some 4, some 0, ⟨1970, 1, 1, 0, 0, 2, 0⟩, [some 7], 0⟩,
+             ⟨some 3, some 4, some 1, ⟨1970, 1, 1, 0, 0, 2, 0⟩, [some 7], 2⟩, ⟨some 6, some 8, some 0, ⟨1970, 1, 1, 0, 0, 5, 0⟩, [], 2⟩],
     trks := [⟨[0, 1, 2, 3], []⟩, ⟨[1, 2], [("speed", 0)]⟩], cur := 0 }
 
 def demoG : GOps (Option Rat) := optG (fun x => if x = 25 then 5 else if x = 100 then 10 else 0) (fun n => (n : Rat)) (fun _ => false)
@@ -649,6 +657,16 @@ example : (stepW demoG (.absCurv 0) demoW).2.heap.map (·.feats)
 example : wRd { (stepW demoG (.absCurv 0) demoW).2 with cur := 0 } "abs_curv" = some [some 0, some 5, some 5, some 10] := by
   decide +kernel
 example : (match (stepW demoG (.speed 0) demoW).1 with | .ok (.col l) => l | _ => [])
+    = [some (5 / 2), some (5 / 2), some (5 / 3), some (5 / 3)] := by decide +kernel
+/-- the METHOD `track.estimate_speed()` on the same track (stamps of two zones): the same column, and the `zone` fields —
+like every other field of every stamp — are what they were -/
+example : (match (stepW demoG (.speedMethod 0) demoW).1 with | .ok (.col l) => l | _ => [])
+    = [some (5 / 2), some (5 / 2), some (5 / 3), some (5 / 3)] := by decide +kernel
+example : (stepW demoG (.speedMethod 0) demoW).2.heap.map (·.zone) = [0, 0, 2, 2] := by decide +kernel
+/-- `track.setTimeZone(1)` on the section (track 1) writes the zone of the two shared objects and nothing else; the speeds
+computed afterwards are the same -/
+example : (stepW demoG (.setZone 1 1) demoW).2.heap.map (·.zone) = [0, 1, 1, 2] := by decide +kernel
+example : (match (stepW demoG (.speed 0) (stepW demoG (.setZone 1 1) demoW).2).1 with | .ok (.col l) => l | _ => [])
     = [some (5 / 2), some (5 / 2), some (5 / 3), some (5 / 3)] := by decide +kernel
 /-- an in-place edit of a timestamp FIELD is seen by the next computation: fix 1 moved from second 2 to second 0 -/
 example : (match (stepW demoG (.speed 0) (stepW demoG (.setTime 0 1 "sec" 0) demoW).2).1 with | .ok (.col l) => l | _ => [])
